@@ -162,6 +162,15 @@ func c12Run(c *fw.Ctx) fw.Outcome {
 		}
 		da.regions = map[string]*astisub.Region{}
 	}
+	if (kind == 0 || kind == 3) && r.P(1, 8) {
+		// an identifier the receiver holds without a definition (reserved, or blanked by the caller): it is A's and stays
+		id := fw.Pick(r, ids)
+		a.Styles[id], da.styles[id] = nil, nil
+		if kind == 0 && r.Bool() {
+			a.Regions[id], da.regions[id] = nil, nil
+		}
+		c.Count("merge_receivers_with_a_reserved_identifier", 1)
+	}
 	a.Items = append([]*astisub.Item(nil), aItems...)
 	// receiver may itself be unordered; the statement orders the union "the same way" (stable, A ahead of B)
 	b := &astisub.Subtitles{Items: append([]*astisub.Item(nil), bItems...), Regions: db.regions, Styles: db.styles}
